@@ -13,6 +13,7 @@ package main
 // files it wrote itself under its own files directory.
 
 import (
+	"path/filepath"
 	"encoding/json"
 	"fmt"
 	"sort"
@@ -126,13 +127,18 @@ func (g *c04Gen) fileName(stage, tag string) string {
 
 // value template of one output, and the files it needs
 func (g *c04Gen) outValue(stage, ty string, w *[][]string) interface{} {
+	// one subdirectory per output: a directory shared by the files of two
+	// outputs outlives the files of the one whose holders finish first, and
+	// whether that output then still "refers to an existing file" is
+	// recomputed by the runtime at every cache refresh but fixed in the model
+	subdir := fmt.Sprintf("sub%d/", g.nStage)
 	file := func() interface{} {
 		if g.r.Intn(12) == 0 {
 			return nil
 		}
 		n := g.fileName(stage, "o")
 		if g.r.Intn(6) == 0 {
-			n = "sub/" + n
+			n = subdir + n
 			g.feat("file_in_subdir")
 		}
 		*w = append(*w, []string{"files", n, n[strings.LastIndex(n, "_s")+2 : len(n)-4]})
@@ -231,8 +237,16 @@ func (g *c04Gen) junk(stage string, w *[][]string) {
 			}
 		}
 		if len(prev) > 0 {
-			n := prev[g.r.Intn(len(prev))] + ".idx"
-			*w = append(*w, []string{"files", n, fmt.Sprint(1 + g.r.Intn(3000))})
+			// (the size a generated file must have is read from the
+			// "_s<size>" in its name: keep the sibling's, so that its
+			// content can be verified like any other file's)
+			pn := prev[g.r.Intn(len(prev))]
+			n := pn + ".idx"
+			sz := "0"
+			if m := c04SizeRe.FindStringSubmatch(filepath.Base(pn)); m != nil {
+				sz = m[1]
+			}
+			*w = append(*w, []string{"files", n, sz})
 			g.feat("sibling_with_name_prefix")
 		}
 	}
